@@ -42,6 +42,8 @@ MAP = [
  ("guard that is also a solve variable", ["C08", "C02"]),
  ("dependency that was already planned", ["C04"]),
  ("loop bounds of a guarded array assignment", ["C05", "C01"]),
+ ("variable that equals a loop variable", ["C07"]),
+ ("guard read a temporary that is only set", ["C07"]),
 ]
 def main():
     log = subprocess.run(["git", "-C", "/repo", "log", "--reverse", "--format=%h %s"],
